@@ -1270,7 +1270,44 @@ def layout_of(printed, name):
             elif i % 4 == 2:
                 gaps[i] = REMARK_INNER[(i // 4) % len(REMARK_INNER)]
         return oalast.Layout(gaps=gaps, lead='/*\x85\x0c*/ /* \x0b */\n', trail=' /*\x0c*/')
+    if name == 'joined':
+        return joined_layout(printed)
     raise ValueError(name)
+
+
+# Layout "joined": statements that start on a line on which a token holding a line break ends -- a block comment of
+# several lines (begun on the line of the previous statement, on a line of its own, or several of them in a row) or an
+# `end if` / `end for` / `end while` whose two words stand on two lines, the next statement following on the line of
+# the second word.  A line still ends in "\n" only, wherever that "\n" stands; columns count from the last one.
+LAYOUTS['joined'] = 'joined'
+JOINED_GAPS = [
+    ' /* begins behind the statement\n   and ends in front of the next */ ',
+    '\n/* a\n\n b */ ',
+    ' ',                                                                # same line (behind `end\n if;` and others)
+    '\n  /* one line */ /* two\n lines */ /* and\n*/',                 # the statement follows the comment without a blank
+    ' /*\n*/ /**\n**/  ',
+]
+JOINED_INNER = [' /* in\n between */ ', '\n', ' /*\n\n*/']              # between the tokens of a statement
+JOINED_END = ['\n', ' \n  ', '\n\n', '\r\n\t']                          # between `end` and `if` / `for` / `while`
+
+
+def joined_layout(printed):
+    from mc.refs import oalast
+    gaps, inner = {}, {}
+    k = e = 0
+    for i, t in enumerate(printed.toks):
+        if t.inner:
+            inner[i] = JOINED_END[e % len(JOINED_END)]
+            e += 1
+        if not i or printed.toks[i - 1].glue:
+            continue
+        if printed.toks[i - 1].text == ';':
+            # behind a split `end if;` the next statement stays on the line of the second word every other time
+            gaps[i] = ' ' if i >= 2 and printed.toks[i - 2].inner and e % 2 else JOINED_GAPS[k % len(JOINED_GAPS)]
+            k += 1
+        elif i % 5 == 3:
+            gaps[i] = JOINED_INNER[(i // 5) % len(JOINED_INNER)]
+    return oalast.Layout(gaps=gaps, inner=inner, lead='/* head\n of the action */ ', trail=' /* tail\n*/')
 
 
 # ---------------------------------------------------------------------------
